@@ -146,6 +146,8 @@ impl Method for PhoneticMethod {
             // Update the auto correct entries if only the file was modified in the meantime.
             if modified > self.modified {
                 self.suggestion.user_autocorrect = read_autocorrect(&mut file);
+                // The cached searches embed the old auto correct entries.
+                self.suggestion.cache.clear();
                 self.modified = modified;
             }
         }
